@@ -22,7 +22,7 @@ def leak_case(c):
         bt["min_" + ax] = bt["max_" + ax] = ("pml" if a == axis else "periodic")
     bc = fdtdx.BoundaryConfig.from_uniform_bound(thickness=12, override_types=bt)
     bd, cons = fdtdx.boundary_objects_from_config(bc, vol)
-    wc = fdtdx.WaveCharacter(wavelength=wl)
+    wc = fdtdx.WaveCharacter(wavelength=wl, phase_shift=float(c.get("phase", 0.0)))
     pgs = [None, None, None]; pgs[axis] = 1
     others = tuple(a for a in range(3) if a != axis)
     prof = fdtdx.GaussianPulseProfile(spectral_width=fdtdx.WaveCharacter(wavelength=4 * wl), center_wave=wc) if pulsed else fdtdx.SingleFrequencyProfile()
